@@ -96,6 +96,7 @@ type Origin struct {
 	Assert types.Type // outermost type assertion applied
 	Field  string     // field selected from the origin (call.Size)
 	Base   *Origin
+	KeyO   *Origin // scopeload: origin of the key
 }
 
 func (o *Origin) String() string {
@@ -490,11 +491,12 @@ func (it *vmInterp) origin(hp *HandlerPath, e ast.Expr) *Origin {
 			if it.loadEv == nil {
 				it.loadEv = map[ast.Expr]bool{}
 			}
+			ko := it.origin(hp, x.Index)
 			if !it.loadEv[e] {
 				it.loadEv[e] = true
-				it.emit(hp, VMEvent{Kind: "scopeload", Node: e, Key: it.origin(hp, x.Index)})
+				it.emit(hp, VMEvent{Kind: "scopeload", Node: e, Key: ko})
 			}
-			return &Origin{Kind: "scopeload", Base: b, Expr: e, Event: -1}
+			return &Origin{Kind: "scopeload", Base: b, Expr: e, Event: -1, KeyO: ko}
 		}
 		// vm.constants[vm.arg()]
 		if it.m.isField(it.info, x.X, "constants") {
@@ -508,6 +510,22 @@ func (it *vmInterp) origin(hp *HandlerPath, e ast.Expr) *Origin {
 		if x.Op == token.NOT {
 			o := it.origin(hp, x.X)
 			return &Origin{Kind: "not", Base: o, Expr: e, Event: -1}
+		}
+	case *ast.BinaryExpr:
+		// operands are evaluated (their loads are events); X + 1 / X - 1 is an increment of X
+		l := it.origin(hp, x.X)
+		r := it.origin(hp, x.Y)
+		isOne := func(y ast.Expr) bool {
+			tv, ok := it.info.Types[y]
+			return ok && tv.Value != nil && tv.Value.ExactString() == "1"
+		}
+		switch {
+		case x.Op == token.ADD && isOne(x.Y):
+			return &Origin{Kind: "incr", Base: l, Expr: e, Event: -1, Field: "++"}
+		case x.Op == token.ADD && isOne(x.X):
+			return &Origin{Kind: "incr", Base: r, Expr: e, Event: -1, Field: "++"}
+		case x.Op == token.SUB && isOne(x.Y):
+			return &Origin{Kind: "incr", Base: l, Expr: e, Event: -1, Field: "--"}
 		}
 	}
 	return &Origin{Kind: "other", Expr: e}
@@ -758,6 +776,27 @@ func (it *vmInterp) assign(hp *HandlerPath, as *ast.AssignStmt) {
 			}
 		}
 	}
+	// v += 1 / v -= 1 on a local
+	if as.Tok != token.ASSIGN && as.Tok != token.DEFINE {
+		if len(as.Lhs) == 1 && len(as.Rhs) == 1 {
+			if id, ok := as.Lhs[0].(*ast.Ident); ok {
+				obj := info.Uses[id]
+				cur := it.vars[obj]
+				it.origin(hp, as.Rhs[0])
+				tv, isC := info.Types[as.Rhs[0]]
+				if cur != nil && isC && tv.Value != nil && tv.Value.ExactString() == "1" && (as.Tok == token.ADD_ASSIGN || as.Tok == token.SUB_ASSIGN) {
+					f := "++"
+					if as.Tok == token.SUB_ASSIGN {
+						f = "--"
+					}
+					it.vars[obj] = &Origin{Kind: "incr", Base: cur, Expr: as.Lhs[0], Event: -1, Field: f}
+				} else {
+					it.vars[obj] = &Origin{Kind: "other", Expr: as.Lhs[0]}
+				}
+			}
+		}
+		return
+	}
 	// plain variable bindings
 	if len(as.Lhs) == len(as.Rhs) {
 		for i, l := range as.Lhs {
@@ -866,6 +905,9 @@ type OpSig struct {
 	Scope     string // "" open close load store inc
 	MayPanic  bool
 	Problems  []string
+	// Scope == "inc": the stored value is the loaded value of the same key plus one
+	IncOK  bool
+	IncWhy string
 }
 
 // Signature derives the signature of one opcode; Problems non-empty = undecided.
@@ -924,6 +966,16 @@ func (m *VMModel) Signature(name string) *OpSig {
 			case "scopestore":
 				if scope == "load" {
 					scope = "inc"
+					s.IncOK, s.IncWhy = false, "the stored value is `"+ExprStr(exprOfOrigin(e.Val))+"`"
+					if v := e.Val; v != nil && v.Kind == "incr" && v.Field == "++" && v.Base != nil && v.Base.Kind == "scopeload" {
+						if sameOrigin(v.Base.KeyO, e.Key) {
+							s.IncOK, s.IncWhy = true, "stores (loaded value of the same key) + 1"
+						} else {
+							s.IncWhy = "the incremented value is loaded under another key than the one stored"
+						}
+					} else if v != nil && v.Kind == "incr" && v.Field == "--" {
+						s.IncWhy = "the variable is decremented"
+					}
 				} else {
 					scope = "store"
 				}
@@ -1010,6 +1062,25 @@ func (m *VMModel) Signature(name string) *OpSig {
 		s.Problems = append(s.Problems, "no completing path")
 	}
 	return s
+}
+
+// sameOrigin: two origins denote the same value (the same variable binding, or the same
+// operand read).
+func sameOrigin(a, b *Origin) bool {
+	if a == nil || b == nil {
+		return false
+	}
+	if a == b {
+		return true
+	}
+	return a.Kind == b.Kind && a.Event >= 0 && a.Event == b.Event && (a.Kind == "const" || a.Kind == "arg" || a.Kind == "pop" || a.Kind == "peek")
+}
+
+func exprOfOrigin(o *Origin) ast.Node {
+	if o == nil || o.Expr == nil {
+		return nil
+	}
+	return o.Expr
 }
 
 func (s *OpSig) String() string {
